@@ -16,4 +16,8 @@ def jobs(tier):
 
 
 def extra_jobs(tier):
-    return []
+    # loan amounts finer than the symbol's precision (borrowed must still equal the open principal)
+    ps = [dict(plan="loans", depth=2, bp=8, qp=2, lend="margin", namounts=1, closes=hist.CLOSES, kinds=["limit"],
+               auto_borrow=False, auto_repay=ar, loan_symbol=ls, loan_extra_decimals=3)
+          for ar in (False, True) for ls in ("USD", "BTC")]
+    return hist.jobs_for(PROPS, ps)
